@@ -148,6 +148,16 @@ class Ticket:
             if self._after_release(b, sa, bb, starts or [bb]):
                 return (False, "after the release of the ticket", adm[0])
             return (True, "dominated by ticket == load(SERVING)", adm[0])
+        # continuation of an admitting call by a `match` / `if let Some(ticket)` on its result
+        for f in block_facts(env.ev, ctx, bb):
+            if f[0] == "is_some" and f[2] is True:
+                ld = self.admitting_call(ctx, f[1])
+                if ld is not None:
+                    starts = [d for d in b.dominators().get(bb, ()) if any(
+                        g[0] == "is_some" and g[2] is True and g[1] == f[1] for g in block_facts(env.ev, ctx, d))]
+                    if self._after_release(b, sa, bb, starts or [bb]):
+                        return (False, "after the release of the ticket", ld)
+                    return (True, "continuation of an admitting call (matched on Some)", ld)
         if b.is_closure and b.parent in env.F.bodies:
             parent = env.F.bodies[b.parent]
             pctx = env.ctx(parent, sa, self.world)
